@@ -8,6 +8,10 @@ branch or a loop, exceptions):
                                  SetQOperations._get_operation_item_var_first_index
                                  SetQOperations.index_var_total_from_local_info
                                  SetQOperations.local_info_from_index_var_total
+                                 SetQOperations.set_qoperations_from_var_total   (its slicing skeleton: length guard, start/end bookkeeping,
+                                 which piece var_total[start:end] goes to which operation, under which class the result is stored; the
+                                 calls of generate_from_var / SetQOperations(...) stay symbolic; var_total is represented by its length)
+                                 the 18 accessors var_* / size_var_* / _all_qoperations (as layouts, class Accessor)
   quara/protocol/qtomography/standard/standard_{qst,povmt,qpt,qmpt}.py
                                  the `if on_para_eq_constraint: self._num_variables = ... else: self._num_variables = ...` of __init__
 
@@ -44,9 +48,15 @@ METHODS = {   # python name -> (coq name, [(param, type)], result type)
     "index_var_total_from_local_info": ("gen_index_var_total_from_local_info", [("mode", "str"), ("index_operations", "Z"), ("index_var_local", "Z")], "Z"),
     "local_info_from_index_var_total": ("gen_local_info_from_index_var_total", [("index_var_total", "Z")], "info"),
 }
+# the slicing skeleton of set_qoperations_from_var_total: the parameter var_total is represented by its LENGTH (a Z); the result is the PLAN
+# [(kind under which the regenerated operation is stored, (kind, index, start, end) of the operation regenerated from var_total[start:end])]
+REGEN = {"set_qoperations_from_var_total": ("gen_regen_plan", [("var_total", "veclen")], "plan")}
+CLASSKEY = {"State": "KState", "Gate": "KGate", "Povm": "KPovm", "MProcess": "KMproc"}
 ORDER = ["_get_operation_mode_to_total_index_map", "_get_mode_from_index_var_total", "_get_operation_item_var_first_index",
          "index_var_total_from_local_info", "local_info_from_index_var_total"]
-COQTY = {"Z": "Z", "str": "string", "fim": "fimap", "sizelist": "(list Z)", "strlist": "(list string)", "info": "(string * Z * Z)"}
+COQTY = {"Z": "Z", "str": "string", "fim": "fimap", "sizelist": "(list Z)", "strlist": "(list string)", "info": "(string * Z * Z)",
+         "msg": "unit", "veclen": "Z", "oplist": "(list (kind * Z * Z))", "op": "(kind * Z * Z)", "slice": "(Z * Z)", "regen": "(kind * Z * Z * Z)",
+         "plan": "(list (kind * (kind * Z * Z * Z)))"}
 EXC = {"IndexError": "EIndex", "ValueError": "EValue"}
 
 
@@ -69,7 +79,7 @@ class Method:
 
     def __init__(self, fdef):
         self.f = fdef
-        self.cname, self.params, self.rtype = METHODS[fdef.name]
+        self.cname, self.params, self.rtype = (METHODS[fdef.name] if fdef.name in METHODS else REGEN[fdef.name])
         self.fresh = 0
         self.defined_before = []     # coq names of methods already emitted (callable)
 
@@ -111,7 +121,7 @@ class Method:
             if e.attr in PLURAL:
                 return "(s %s)" % KCON[PLURAL[e.attr]], "sizelist", []
             fail(e, "attribute self.%s" % e.attr)
-        if isinstance(e, ast.Subscript):
+        if isinstance(e, ast.Subscript) and not isinstance(e.slice, ast.Slice):
             a, ta, ba = self.expr(e.value, env)
             if ta != "fim":
                 fail(e, "subscript of %s" % ta)
@@ -124,6 +134,65 @@ class Method:
                 fail(e, "key of type %s" % tk)
             v = self.tmp()
             return v, "Z", ba + bk + [(v, "(fim_get %s %s)" % (a, k))]
+        if isinstance(e, ast.Call) and isinstance(e.func, ast.Attribute) and e.func.attr in ("format", "join") and self.msg_ok(e):
+            return "tt", "msg", []          # an exception message: cannot raise, has no effect, usable only as the argument of a raise
+        if isinstance(e, ast.Dict):
+            # {State: [], Gate: [], Povm: [], MProcess: []} : the regenerated operations, grouped by class; starts empty
+            if sorted(ast.unparse(k_) for k_ in e.keys) != sorted(CLASSKEY) or not all(isinstance(v_, ast.List) and not v_.elts for v_ in e.values):
+                fail(e, "dict literal")
+            return "[]", "plan", []
+        if isinstance(e, ast.Call) and isinstance(e.func, ast.Name) and e.func.id == "__append__" and len(e.args) == 3:
+            # D[type(q)].append(x)  (rewritten by preprocess): stored under the kind of q
+            d_, td, bd = self.expr(e.args[0], env)
+            q_, tq, bq = self.expr(e.args[1], env)
+            x_, tx, bx = self.expr(e.args[2], env)
+            if (td, tq, tx) != ("plan", "op", "regen"):
+                fail(e, "append of %s under type(%s) to %s" % (tx, tq, td))
+            return "(%s ++ [(op_kind %s, %s)])" % (d_, q_, x_), "plan", bd + bq + bx
+        if isinstance(e, ast.Call) and isinstance(e.func, ast.Name) and e.func.id == "SetQOperations" and not e.args:
+            kw = {k_.arg: k_.value for k_ in e.keywords}
+            want = {"states": "State", "gates": "Gate", "povms": "Povm", "mprocesses": "MProcess"}
+            if sorted(kw) != sorted(want):
+                fail(e, "SetQOperations(...) keywords")
+            base = None
+            for k_, cls_ in want.items():
+                v_ = kw[k_]
+                if not (isinstance(v_, ast.Subscript) and isinstance(v_.value, ast.Name) and isinstance(v_.slice, ast.Name) and v_.slice.id == cls_):
+                    fail(e, "SetQOperations(%s=...) is not <dict>[%s]" % (k_, cls_))
+                if base is not None and v_.value.id != base:
+                    fail(e, "SetQOperations(...) built from two dicts")
+                base = v_.value.id
+            d_, td, bd = self.expr(ast.Name(id=base, ctx=ast.Load()), env)
+            if td != "plan":
+                fail(e, "SetQOperations(...) of %s" % td)
+            return d_, "plan", bd
+        if isinstance(e, ast.Call) and isinstance(e.func, ast.Name) and e.func.id == "len" and len(e.args) == 1 and not e.keywords:
+            a_ = e.args[0]
+            if isinstance(a_, ast.Name) and a_.id in env and env[a_.id][0] == "veclen":
+                return self.expr(a_, env)[0], "Z", self.expr(a_, env)[2]
+            if isinstance(a_, ast.Call) and isinstance(a_.func, ast.Attribute) and a_.func.attr == "to_var" and not a_.args and not a_.keywords:
+                q_, tq, bq = self.expr(a_.func.value, env)
+                if tq == "op":
+                    return "(op_size %s)" % q_, "Z", bq
+            fail(e, "len(%s)" % ast.unparse(a_))
+        if isinstance(e, ast.Subscript) and isinstance(e.slice, ast.Slice):
+            v_, tv, bv = self.expr(e.value, env)
+            if tv != "veclen" or e.slice.lower is None or e.slice.upper is None or e.slice.step is not None:
+                fail(e, "slice")
+            a_, ta, ba = self.expr(e.slice.lower, env)
+            b_, tb, bb = self.expr(e.slice.upper, env)
+            if ta != "Z" or tb != "Z":
+                fail(e, "slice bounds")
+            return "(%s, %s)" % (a_, b_), "slice", bv + ba + bb
+        if isinstance(e, ast.Call) and isinstance(e.func, ast.Attribute) and e.func.attr == "generate_from_var":
+            args = list(e.args) + [k_.value for k_ in e.keywords if k_.arg == "var"]
+            if len(args) != 1 or any(k_.arg != "var" for k_ in e.keywords):
+                fail(e, "generate_from_var arguments")
+            q_, tq, bq = self.expr(e.func.value, env)
+            v_, tv, bv = self.expr(args[0], env)
+            if (tq, tv) != ("op", "slice"):
+                fail(e, "generate_from_var of %s on %s" % (tv, tq))
+            return "(op_kind %s, op_index %s, fst %s, snd %s)" % (q_, q_, v_, v_), "regen", bq + bv
         if isinstance(e, ast.Call) and isinstance(e.func, ast.Name) and e.func.id == "dict" and not e.args:
             kw = {k.arg: k.value for k in e.keywords}
             if len(kw) != len(e.keywords) or None in kw:
@@ -152,6 +221,10 @@ class Method:
                     return "(size_total s)", "Z", []
                 if n.startswith("size_var_") and n[len("size_var_"):] in PLURAL and not e.args:
                     return "(size_kind s %s)" % KCON[PLURAL[n[len("size_var_"):]]], "Z", []
+                if n == "_all_qoperations" and not e.args:
+                    if "gen_all_qoperations_order" not in self.defined_before:
+                        fail(e, "call of _all_qoperations before its definition")
+                    return "(all_ops s gen_all_qoperations_order)", "oplist", []
                 if n in METHODS:
                     cn, ps, rt = METHODS[n]
                     if cn not in self.defined_before:
@@ -273,7 +346,7 @@ class Method:
                     visit(s_.body); visit(s_.orelse); continue
                 elif isinstance(s_, ast.For):
                     for nm in self.loop_names(s_):
-                        env[nm] = ("Z", "def")
+                        env[nm] = (self.loop_elt(s_, env), "def")
                     visit(s_.body); continue
                 else:
                     continue
@@ -295,6 +368,42 @@ class Method:
         if a.startswith("List[") and s_.value is None:
             return "sizelist"
         fail(s_, "annotation %s" % a)
+
+    @staticmethod
+    def loop_elt(s_, env):
+        """element type of a loop: an operation when iterating over a list of operations, an integer otherwise"""
+        return "op" if isinstance(s_.iter, ast.Name) and s_.iter.id in env and env[s_.iter.id][0] == "oplist" and isinstance(s_.target, ast.Name) else "Z"
+
+    def preprocess(self, stmts):
+        """two surface forms of the regeneration loop, rewritten into plain assignments:
+           a, b = e1, e2            ->  a = e1 ; b = e2      (accepted only when e2 does not mention a)
+           D[type(q)].append(x)     ->  D = __append__(D, q, x)"""
+        out = []
+        for st in stmts:
+            if isinstance(st, ast.Assign) and len(st.targets) == 1 and isinstance(st.targets[0], ast.Tuple) and isinstance(st.value, ast.Tuple) \
+                    and len(st.targets[0].elts) == len(st.value.elts) and all(isinstance(t_, ast.Name) for t_ in st.targets[0].elts):
+                names = [t_.id for t_ in st.targets[0].elts]
+                for i_, v_ in enumerate(st.value.elts):
+                    if any(isinstance(n_, ast.Name) and n_.id in names[:i_] for n_ in ast.walk(v_)):
+                        fail(st, "tuple assignment whose right-hand side mentions an earlier target")
+                for t_, v_ in zip(st.targets[0].elts, st.value.elts):
+                    a_ = ast.Assign(targets=[ast.Name(id=t_.id, ctx=ast.Store())], value=v_)
+                    ast.copy_location(a_, st); ast.fix_missing_locations(a_); out.append(a_)
+                continue
+            if isinstance(st, ast.Expr) and isinstance(st.value, ast.Call) and isinstance(st.value.func, ast.Attribute) and st.value.func.attr == "append" \
+                    and len(st.value.args) == 1 and not st.value.keywords and isinstance(st.value.func.value, ast.Subscript):
+                sub = st.value.func.value
+                if isinstance(sub.value, ast.Name) and isinstance(sub.slice, ast.Call) and isinstance(sub.slice.func, ast.Name) and sub.slice.func.id == "type" \
+                        and len(sub.slice.args) == 1 and isinstance(sub.slice.args[0], ast.Name) and not sub.slice.keywords:
+                    call = ast.Call(func=ast.Name(id="__append__", ctx=ast.Load()), args=[ast.Name(id=sub.value.id, ctx=ast.Load()), sub.slice.args[0], st.value.args[0]], keywords=[])
+                    a_ = ast.Assign(targets=[ast.Name(id=sub.value.id, ctx=ast.Store())], value=call)
+                    ast.copy_location(a_, st); ast.fix_missing_locations(a_); out.append(a_)
+                    continue
+            for fld in ("body", "orelse"):
+                if hasattr(st, fld) and isinstance(getattr(st, fld), list) and getattr(st, fld) and isinstance(getattr(st, fld)[0], ast.stmt):
+                    setattr(st, fld, self.preprocess(getattr(st, fld)))
+            out.append(st)
+        return out
 
     def loop_names(self, s_):
         if isinstance(s_.target, ast.Name):
@@ -379,10 +488,17 @@ class Method:
                 fail(s_, "for-else")
             (ivar,) = self.loop_names(s_)
             it = s_.iter
-            if not (isinstance(it, ast.Call) and isinstance(it.func, ast.Name) and not it.keywords and len(it.args) == 1):
+            elt = self.loop_elt(s_, env)
+            if elt == "op":
+                x, tx, binds = self.expr(it, env)
+                it = ast.Call(func=ast.Name(id="__ops__", ctx=ast.Load()), args=[it], keywords=[])
+            elif not (isinstance(it, ast.Call) and isinstance(it.func, ast.Name) and not it.keywords and len(it.args) == 1):
                 fail(s_, "loop iterable")
-            x, tx, binds = self.expr(it.args[0], env)
-            if it.func.id == "range" and isinstance(s_.target, ast.Name) and tx == "Z":
+            else:
+                x, tx, binds = self.expr(it.args[0], env)
+            if it.func.id == "__ops__":
+                idx = x
+            elif it.func.id == "range" and isinstance(s_.target, ast.Name) and tx == "Z":
                 idx = "(py_range %s)" % x
             elif it.func.id == "enumerate" and isinstance(s_.target, ast.Tuple) and tx == "sizelist":
                 idx = "(py_enum_idx %s)" % x
@@ -390,7 +506,7 @@ class Method:
                 fail(s_, "loop over %s(%s)" % (it.func.id, tx))
             if any(isinstance(n, (ast.Return, ast.Raise, ast.Break, ast.Continue, ast.For, ast.While)) for b_ in s_.body for n in ast.walk(b_)):
                 fail(s_, "return / raise / break / continue / nested loop inside a loop")
-            envb = dict(env); envb[ivar] = ("Z", "def")
+            envb = dict(env); envb[ivar] = (elt, "def")
             tys = self.types_of_assigned(s_.body, envb)
             names = self.assigned(s_.body)
             if ivar in names:
@@ -410,7 +526,7 @@ class Method:
                 if n not in env1:
                     env1[n] = (tys[n], "maybe")
                     pre += "let %s := (@None %s) in\n  " % (n, COQTY[tys[n]])
-            envb = dict(env1); envb[ivar] = ("Z", "def")
+            envb = dict(env1); envb[ivar] = (elt, "def")
             body = self.block(s_.body, envb, lambda e_: "POk %s" % self.pack(carried, e_))
             if not carried:
                 fail(s_, "loop without carried state")
@@ -453,7 +569,8 @@ class Method:
         if names != ["self"] + [p for p, _ in self.params]:
             fail(f, "parameters %s, expected %s" % (names, ["self"] + [p for p, _ in self.params]))
         env = {p: (t, "def") for p, t in self.params}
-        body = self.block(f.body, env, lambda e_: fail(f, "function falls off its end"))
+        stmts = self.preprocess(list(f.body)) if f.name in REGEN else f.body
+        body = self.block(stmts, env, lambda e_: fail(f, "function falls off its end"))
         ps = " ".join("(%s : %s)" % (p, COQTY[t]) for p, t in self.params)
         return "Definition %s (s : sizes) %s : pyres %s :=\n  %s." % (self.cname, ps, COQTY[self.rtype], body)
 
@@ -711,6 +828,14 @@ def main():
             out.append(a.translate())
             out.append("")
             acc_done.append(a.cname)
+        for name in REGEN:
+            fd = [n for n in cdef[0].body if isinstance(n, ast.FunctionDef) and n.name == name]
+            if len(fd) != 1:
+                raise Unsupported("method %s not found (or defined twice)" % name)
+            m = Method(fd[0])
+            out.append("(* from quara/objects/qoperations.py : SetQOperations.%s  (slicing skeleton; var_total stands for len(var_total)) *)" % name)
+            out.append(m.translate(list(done) + list(acc_done)))
+            out.append("")
         for path, cls, cn in NV:
             out.append(nv_translate(repo, path, cls, cn))
             out.append("")
